@@ -832,6 +832,11 @@ func (g *Generator) getMethodPath(method *protogen.Method, basePath string, pack
 	// Try to get custom path from options
 	customPath := g.getCustomPath(method)
 
+	// Every other generator normalises the base path ("api" and "/api" are the same prefix)
+	if basePath != "" {
+		basePath = annotations.EnsureLeadingSlash(basePath)
+	}
+
 	// If we have both base path and custom path, combine them
 	if basePath != "" && customPath != "" {
 		// Ensure proper path joining
